@@ -391,7 +391,10 @@ def r6(ctx, cfg):
                    sample="(code_data(code_id).checksum, addr_canonicalize(creator), salt)")
             conds = q.dominating_conditions(P, f, bid)
             ok = any(c[0] == "variant_in" and c[2] == ("Some",) and contains(c[1], lambda x: x[0] == "param" and x[2] == "salt") for e, c in conds)
-            ctx.ob(R, key, "salted-iff-salt-given", ok, "predictable_contract_address is not selected by `salt` being Some", fn=f, line=t["line"],
+            # .. and by nothing else about the salt (an empty salt is a salt: instantiate2_address rejects it, the classic
+            # address must not be used for it)
+            extra = [c[1] for e, c in conds if c[0] == "bool" and any(contains(x, lambda y: y[0] == "param" and y[2] == "salt") for x in c[1][1])]
+            ctx.ob(R, key, "salted-iff-salt-given", ok and not extra, "predictable_contract_address is not selected by `salt` being Some alone (%s)" % [(e1[0], e1[2]) for e1 in extra], fn=f, line=t["line"],
                    sample="under Some(salt)")
         cc = q.calls(f, ("addresses::AddressGenerator", "contract_address"))
         ok = len(cc) == 1
@@ -408,6 +411,12 @@ def r6(ctx, cfg):
                                 contains(y[2][1], lambda z: z[0] == "call" and z[1] == "prefixed_storage::prefixed_read" and is_param(z[2][0], "storage") and
                                          peel(z[2][1]) == ("item", "wasm::NAMESPACE_WASM")))
             ok = is_param(a[3], "code_id") and contains(inst, is_count)
+        if len(cc) == 1:
+            cconds = q.dominating_conditions(P, f, cc[0][0])
+            none_only = any(c[0] == "variant_in" and c[2] == ("None",) and contains(c[1], lambda x: x[0] == "param" and x[2] == "salt") for e, c in cconds) and \
+                not any(c[0] == "bool" and any(contains(x, lambda y: y[0] == "param" and y[2] == "salt") for x in c[1][1]) for e, c in cconds)
+            ctx.ob(R, key, "classic-iff-no-salt", none_only, "the classic (code id, instance) address is used although a salt was given (it must be selected by `salt` being None)", fn=f,
+                   line=cc[0][1]["line"], sample="under None")
         ctx.ob(R, key, "classic(code_id, instance_count(storage))", ok, "classic address arguments are not (code_id, instance_count(storage))", fn=f,
                sample="contract_address(api, storage, code_id, instance_count(storage))")
 
